@@ -329,8 +329,9 @@ func (g *gen) conflictFree(nyct, alerts bool) *gtfsrt.FeedMessage {
 	}
 	nVeh := g.r.Intn(5)
 	type vehPlan struct {
-		desc *gtfsrt.VehicleDescriptor // nil = no descriptor at all
-		trip int
+		desc  *gtfsrt.VehicleDescriptor // nil = no descriptor at all
+		trip  int
+		empty bool // with desc == nil: the vehicle position carries a descriptor whose fields are present but empty (still "no id")
 	}
 	var vehs []*vehPlan
 	for i := 0; i < nVeh; i++ {
@@ -338,6 +339,7 @@ func (g *gen) conflictFree(nyct, alerts bool) *gtfsrt.FeedMessage {
 		switch g.r.Intn(5) {
 		case 0:
 			vp.desc = nil
+			vp.empty = g.coin(0.4)
 		case 1:
 			if g.coin(0.5) {
 				vp.desc = &gtfsrt.VehicleDescriptor{Label: ptr(fmt.Sprintf("label-only-%d", i))}
@@ -383,6 +385,11 @@ func (g *gen) conflictFree(nyct, alerts bool) *gtfsrt.FeedMessage {
 			vp := g.vehiclePosition(ts)
 			if v.desc != nil {
 				vp.Vehicle = proto.Clone(v.desc).(*gtfsrt.VehicleDescriptor)
+			} else if v.empty {
+				vp.Vehicle = &gtfsrt.VehicleDescriptor{Id: ptr("")}
+				if g.coin(0.3) {
+					vp.Vehicle.Label = ptr("")
+				}
 			}
 			if v.trip >= 0 && (g.coin(0.7) || v.desc == nil) {
 				vp.Trip = proto.Clone(trips[v.trip].td).(*gtfsrt.TripDescriptor)
